@@ -108,6 +108,14 @@ func altCost(p Point, alt int) int {
 	return 0
 }
 
+var execEpoch uint64
+
+// Epoch identifies the current execution; shim objects that outlive an
+// execution (package-level mutexes, pools) reset their scheduler-side state
+// when they are first touched in a new epoch, so an execution that was cut
+// while a thread held such an object cannot poison the next one.
+func Epoch() uint64 { return execEpoch }
+
 // RunOnce executes body under the scheduler following prefix, then choice 0.
 func RunOnce(cfg Config, prefix []int, body func()) *Result {
 	return runOnce(cfg, prefix, body, nil)
@@ -124,6 +132,7 @@ func runOnce(cfg Config, prefix []int, body func(), frontier func([3]uint64) boo
 	s := &Sched{prefix: prefix, maxSteps: maxSteps, finished: make(chan struct{}), raceSeen: map[string]bool{},
 		chans: map[uintptr]*chanState{}, mem: map[uintptr]*memState{}, objNames: map[interface{}]string{},
 		logEvents: cfg.LogEvents, accessPts: cfg.AccessPts, Values: map[string]interface{}{}, now: 1_000_000_000_000, frontier: frontier}
+	execEpoch++
 	active = s
 	main := s.newThread("main", false, false)
 	main.pending = &op{kind: OpStart, label: "main"}
